@@ -14,6 +14,7 @@ let str_digest (s : string) : int =
   Stdlib.String.iter (fun ch -> h := (!h * 131 + Char.code ch) mod 1000003) s; !h
 
 let ord (t : nat) : nat = nat ((ofnat t) * 5 + 1)
+let reach _ _ = true   (* every probe may see every entry: the worst case for lookups by content *)
 
 type bed = { mutable st : istate; content : (int, int array) Hashtbl.t; mutable live : int list }
 
@@ -28,7 +29,7 @@ let key_content b cols i =
 let dump (b : bed) : string =
   let buf = Buffer.create 256 in
   L.iteri (fun j u ->
-    let ids = L.sort compare (L.map (fun e -> zi (snd e)) u.uents) in
+    let ids = L.sort compare (L.map (fun e -> zi e.eraw) u.uents) in
     Buffer.add_string buf (Printf.sprintf "U%d[%s]" j (Stdlib.String.concat " " (L.map string_of_int ids)))) b.st.uhs;
   L.iteri (fun j m ->
     let groups = L.map (fun g ->
@@ -67,36 +68,36 @@ let run_op (b : bed) (text : string) : string =
   | "NU" :: cols ->
     let cs = L.map nat (L.sort compare (ints cols)) in
     let raws = L.map z_of_int (L.sort compare b.live) in
-    let (st', r) = add_unique_index ord ct b.st cs raws in
+    let (st', r) = add_unique_index ord reach ct b.st cs raws in
     b.st <- st';
     mut (match r with None -> "ok" | Some r -> Printf.sprintf "dup %d" (zi r))
   | "NM" :: cols ->
     let cs = L.map nat (L.sort compare (ints cols)) in
     let raws = L.map z_of_int (L.sort compare b.live) in
-    b.st <- add_multi_index ord ct b.st cs raws; mut "ok"
+    b.st <- add_multi_index ord reach ct b.st cs raws; mut "ok"
   | ["W"; i; a; c; d] -> Hashtbl.replace b.content (int_of_string i) [| int_of_string a; int_of_string c; int_of_string d |]; "ok"
   | ["ADD"; f; i] ->
     let i = int_of_string i in
     if L.mem i b.live then mut "invalid" else begin
-      let o = with_faults (f <> "0") b (fun fl st -> add_raw ord ct fl st (z_of_int i)) in
+      let o = with_faults (f <> "0") b (fun fl st -> add_raw ord reach ct fl st (z_of_int i)) in
       (match o with Accepted -> b.live <- i :: b.live | _ -> ());
       mut (show_outcome o) end
   | ["REM"; f; i] ->
     let i = int_of_string i in
     if not (L.mem i b.live) then mut "invalid" else begin
       ignore f;
-      let (st', _) = remove_raw true true ct None b.st (z_of_int i) in
+      let (st', _) = remove_raw true true reach ct None b.st (z_of_int i) in
       b.st <- st'; b.live <- L.filter (fun x -> x <> i) b.live; mut "ok" end
   | ["UPD"; f; i; j] ->
     let i = int_of_string i and j = int_of_string j in
     if not (L.mem i b.live) || L.mem j b.live || i = j then mut "invalid" else begin
-      let o = with_faults (f <> "0") b (fun fl st -> update_raw true true ord ct fl st (z_of_int i) (z_of_int j)) in
+      let o = with_faults (f <> "0") b (fun fl st -> update_raw true true ord reach ct fl st (z_of_int i) (z_of_int j)) in
       (match o with Accepted -> b.live <- j :: L.filter (fun x -> x <> i) b.live | _ -> ());
       mut (show_outcome o) end
   | ["UPC"; f; i; c; v; t] ->
     let i = int_of_string i and c = int_of_string c and v = int_of_string v in
     if not (L.mem i b.live) then mut "invalid" else begin
-      let run fl st = let ((st', o), _) = update_col true true ord ct fl st (z_of_int i) (nat c) (z_of_int v) in (st', o) in
+      let run fl st = let ((st', o), _) = update_col true true ord reach ct fl st (z_of_int i) (nat c) (z_of_int v) in (st', o) in
       let o =
         if t <> "0" then begin
           (* the assigner throws: it is the step after all applicable Add steps *)
@@ -117,13 +118,13 @@ let run_op (b : bed) (text : string) : string =
     let j = int_of_string j in
     (match L.nth_opt b.st.uhs j with
      | Some u when L.length u.ucols = L.length vals ->
-       Stdlib.String.concat " " ("f" :: L.map (fun z -> string_of_int (zi z)) (find_unique ct u (L.map z_of_string vals)))
+       Stdlib.String.concat " " ("f" :: L.map (fun z -> string_of_int (zi z)) (find_unique reach ct u (L.map z_of_string vals)))
      | _ -> "noindex")
   | "FM" :: j :: vals ->
     let j = int_of_string j in
     (match L.nth_opt b.st.mhs j with
      | Some m when L.length m.mcols = L.length vals ->
-       Stdlib.String.concat " " ("f" :: L.map (fun z -> string_of_int (zi z)) (find_multi ct m (L.map z_of_string vals)))
+       Stdlib.String.concat " " ("f" :: L.map (fun z -> string_of_int (zi z)) (find_multi reach ct m (L.map z_of_string vals)))
      | _ -> "noindex")
   | ["SEG"; n] ->
     let n = z_of_string n in
